@@ -28,6 +28,12 @@ theorem skip_table_agrees : ∀ r ∈ skipTable, eval r.1 = r.2 := by decide +ke
     `Props/C11Events.lean` (`fire_never_blocks`, `close_never_blocks`, …) assume: `init none` -/
 theorem em_queue_is_unbounded : ∀ r ∈ emQueueBound, r.2 = 0 := by decide
 
+/-- the exit of the real `handle_events` waits for the handler thread WITHOUT a wall-clock limit (`thread.join()`: timeout 0 =
+    none, the thread is joined) and no queue operation has a timeout (read under the time shim of harness/props/_em.py), which
+    is what `Props/C11Events.lean` (`after_close`, `after_close_nothing_lost`, `handler_thread_ended_after_close`) assume:
+    `EM.close = EM.closeWithin none` (`closeWithin_none`); `limited_join_can_lose_a_failure` shows it is necessary -/
+theorem em_join_is_unlimited : ∀ r ∈ emJoinLimit, r.2 = 0 := by decide
+
 /-- Third table: the REAL `run_suites` executed on a small project with / without a reporting-backend failure and
     with / without a keyboard interrupt (delivered before or after the failure); what the caller saw (returned
     verdict, or the class of the raised error and whether it carries the backend's text) equals
